@@ -21,7 +21,9 @@ def main():
   from translate import qbitsgen
   qgen = qbitsgen.emit(vlib.GEN)
   LK = os.path.join(vlib.COQ, "theories", "Link")
-  info = vlib.build_obligations(PROP, gen_files=[rgen, lgen, qgen], extra_files=[os.path.join(LK, "ReportLink.v"), os.path.join(LK, "LinLink.v"), os.path.join(LK, "QBitsLink.v")])
+  from translate import relucallgen
+  cgen = relucallgen.emit(vlib.GEN)
+  info = vlib.build_obligations(PROP, gen_files=[rgen, lgen, qgen, cgen], extra_files=[os.path.join(LK, "ReportLink.v"), os.path.join(LK, "LinLink.v"), os.path.join(LK, "QBitsLink.v"), os.path.join(LK, "ReluCallLink.v")])
   errs = rep.obligations(info, "coqc -Q coq/theories QV coq/theories/Properties/C01.v (Print Assumptions under every theorem)")
   for e in errs:
     rep.violation("obligation-" + os.path.basename(e["file"]), "proof obligation no longer checks: " + e["error"][-400:],
